@@ -16,5 +16,7 @@ sec = sec.replace('SEEDCOUNT', '%d of %d' % (caught, len(rows)))
 import os
 aud = open('/verif/tools/audit.md').read().strip() if os.path.exists('/verif/tools/audit.md') else 'The audit was still running when this was committed.'
 sec = sec.replace('AUDITRESULT', aud)
+res = open('/verif/refactorings/RESULT.txt').read() if os.path.exists('/verif/refactorings/RESULT.txt') else ''
+sec = sec.replace('REFCOUNT', 'refactorings/RESULT.txt: %d of %d silent in the last run' % (res.count('SILENT'), res.count('.diff')))
 open('/verif/DESIGN.md', 'w').write(d + sec)
 print('DESIGN.md section 11 regenerated')
